@@ -225,6 +225,15 @@ def main(chk):
                         '/* // */', '/**/', '/***/', '/*/*/', '//\\\n', '/* \\\n */', '"//"', '"/*"', "'/*'", '/* " */', "/* ' */", "// '\n", '// "\n'):
                 cases.append(('P5x', a + mid + b))
                 cases.append(('P5x', a + ' ' + mid + ' ' + b))
+    # P6: every white-space character of 6.4p3 (space, horizontal tab, new-line, vertical tab, form-feed), alone and in pairs, between,
+    # before and after tokens of every class: it separates tokens and is no token itself (seeded round 11: isblank() for the whole set)
+    for n in (1, 2):
+        for ws in itertools.product(' \t\n\v\f', repeat=n):
+            w = ''.join(ws)
+            for a, b in (('a', 'b'), ('1', '+'), ('+', '+'), ('"s"', 'x'), ('x', "'c'"), ('.', '.'), ('<', '<'), ('-', '>'), ('int', 'x'), ('0x1', 'e'), ('L', '"s"')):
+                cases.append(('P6', a + w + b))
+            cases.append(('P6', w + 'a;'))
+            cases.append(('P6', 'a' + w + ';' + w))
     chk.log('%d cases (P1 %d, P2 %d), excluded %r' % (len(cases), len(p1), len(p2), excluded))
 
     # batches: multi-line cases (P5) go one per run inside the job
